@@ -39,6 +39,8 @@ QUESTIONS: Dict[str, List[Tuple[str, int, bool]]] = {
     # the IPv6 address record of a host that has one, asked by unicast (on IPv6 sockets the host hears its own multicast with
     # the interface's scope id attached)
     "aaaab-qu": [(S3.server, 28, True)], "aaaab-qu+ptrb-qm": [(S3.server, 28, True), ("_b._tcp.local.", 12, False)],
+    # the same question twice in one query, once asking for a multicast and once for a unicast reply (each is owed its own)
+    "ptr-qm+ptr-qu": [(TA, 12, False), (TA, 12, True)], "srv-qu+srv-qm": [(S1.name, 33, True), (S1.name, 33, False)],
     # a question for the root name next to one the host answers (a legacy reply has to echo both)
     "root-qm+ptr-qm": [(".", 255, False), (TA, 12, False)],
 }
